@@ -49,12 +49,18 @@ func q(runs uint64, workers int) tierCfg {
 func th(d time.Duration) tierCfg { return tierCfg{runsPerWorker: 1 << 40, workers: 16, budget: d} }
 
 var props = map[string]propCfg{
+	"C01": {quick: q(800, 8), thorough: th(15 * time.Minute)},
 	"C02": {quick: q(4000, 8), thorough: th(10 * time.Minute)},
 	"C03": {quick: q(150, 8), thorough: th(20 * time.Minute)},
+	"C04": {quick: q(800, 8), thorough: th(15 * time.Minute)},
 	"C05": {quick: q(1500, 8), thorough: th(15 * time.Minute)},
+	"C06": {quick: q(300, 8), thorough: th(15 * time.Minute)},
 	"C07": {quick: q(3000, 8), thorough: th(15 * time.Minute)},
 	"C08": {quick: q(3000, 8), thorough: th(15 * time.Minute)},
 	"C09": {quick: q(600, 8), thorough: th(15 * time.Minute)},
+	"C10": {quick: q(600, 8), thorough: th(15 * time.Minute)},
+	"C11": {quick: q(150, 8), thorough: th(20 * time.Minute)},
+	"C12": {quick: q(200, 8), thorough: th(20 * time.Minute)},
 	"C14": {quick: q(40, 8), thorough: th(20 * time.Minute)},
 	"C15": {quick: q(30, 8), thorough: th(20 * time.Minute)},
 	"C16": {quick: q(150, 8), thorough: th(20 * time.Minute)},
@@ -276,8 +282,12 @@ func main() {
 			select {
 			case err := <-done:
 				if err != nil {
-					errs[k] = fmt.Sprintf("worker %d exited: %v\n%s", k, err, tailStr(stderr.String(), 6000))
-					return
+					// a -race worker ends with a failing status once the detector has reported anything
+					// (testing marks the test failed); its result file is still authoritative
+					if _, serr := os.Stat(out); !(pc.race && serr == nil) {
+						errs[k] = fmt.Sprintf("worker %d exited: %v\n%s", k, err, tailStr(stderr.String(), 6000))
+						return
+					}
 				}
 			case <-time.After(watchdog):
 				cmd.Process.Kill()
@@ -412,9 +422,11 @@ func main() {
 func doReplay(bin, prop, path string, verbose bool) int {
 	out := path + ".result"
 	cmd := exec.Command(bin, "-test.run", "^TestWorker$", "-test.timeout", "0")
-	cmd.Env = append(os.Environ(), "VERIF_PROP="+prop, "VERIF_REPLAY="+path, "VERIF_OUT="+out, "GOMAXPROCS=2")
+	cmd.Env = append(os.Environ(), "VERIF_PROP="+prop, "VERIF_REPLAY="+path, "VERIF_OUT="+out, "GOMAXPROCS=2",
+		"GORACE=halt_on_error=0 log_path="+filepath.Join(root, "build", "out", "replay-race"))
+	os.Remove(out)
 	b, err := cmd.CombinedOutput()
-	if err != nil {
+	if _, serr := os.Stat(out); err != nil && serr != nil {
 		fmt.Fprintf(os.Stderr, "replay process failed: %v\n%s\n", err, tailStr(string(b), 4000))
 		return 2
 	}
